@@ -46,6 +46,9 @@ type Check struct {
 	Property    string
 	Harnesses   []Harness
 	Assumptions []string
+	// MsgPrefixes, when set, restricts the check to harness assertions whose
+	// message starts with one of them (a harness shared by two properties).
+	MsgPrefixes []string
 }
 
 // NativeCase mirrors zzvrt.Case.
@@ -361,6 +364,15 @@ func CmdCheck(args []string) int {
 			rep.Cuts += r.Cuts
 			for _, o := range r.Oblig {
 				isPanic := strings.HasPrefix(o.Kind, "panic:")
+				if len(chk.MsgPrefixes) > 0 && strings.HasPrefix(o.Kind, "assert") {
+					mine := false
+					for _, p := range chk.MsgPrefixes {
+						mine = mine || strings.HasPrefix(o.Msg, p)
+					}
+					if !mine {
+						continue // another property's assertion in a shared harness
+					}
+				}
 				rep.Obligations++
 				rep.ByAssert[o.Kind+": "+o.Msg]++
 				if o.Known != "trivial" {
